@@ -1,6 +1,118 @@
-(* Props/C10.v — message commands behave as the IMAP reference model says. *)
-From PV Require Import Base.Prelude Wire.SeqSet RefModel.Flags RefModel.Model RefModel.Spec RefModel.Proofs.
+(* Props/C10.v — message commands behave as the IMAP reference model says.
+   Statements only; proofs in RefModel/*Proofs.v, Sim*.v.
+     Model.v : one session's message commands as pymap executes them (view of the
+               selected mailbox, per-message loops over the backend, fork/_compare
+               diff, FETCH merge);  step / run.
+     Spec.v  : the plain reference model written from RFC 3501/4315/6851
+               (mailbox = list of messages, positions, direct effects); spec_step /
+               spec_run;  abs forgets the session's view.
+   [Inv] (SimBase.v): UIDs of every mailbox ascend, are positive and below the
+   UID counter; the session's view is the selected mailbox's message list (what
+   update_selected leaves after every command); for maildir all folders share one
+   keyword table and stored flags have a file-name letter.  It holds initially
+   (C10_init_dict / C10_init_maildir) and is preserved (part of the proof). *)
+From PV Require Import Base.Prelude Wire.SeqSet Wire.SeqSetProofs
+  RefModel.Flags RefModel.Model RefModel.Spec RefModel.BoxLemmas RefModel.AddrProofs
+  RefModel.SimBase RefModel.SimStore RefModel.SimOther RefModel.Proofs.
 
+(* C10: for EVERY program (any length) over SELECT/EXAMINE, APPEND,
+   STORE (FLAGS/+FLAGS/-FLAGS, .SILENT), EXPUNGE, UID EXPUNGE, COPY, MOVE, FETCH,
+   CLOSE and the UID variants, with any sequence sets and any flags, the
+   responses of the model equal those of the reference spec, and the final
+   mailboxes (messages, flags, dates, contents, stored \Recent, UID counters) and
+   session (selected mailbox, read-only bit, \Recent set) are the spec's *)
+Theorem C10_refines : forall prog st, Inv st ->
+  snd (run st prog) = snd (spec_run (abs st) prog) /\
+  abs (fst (run st prog)) = fst (spec_run (abs st) prog).
+Proof. exact refines_main. Qed.
+Print Assumptions C10_refines.
+
+(* the states a connection starts from satisfy the invariant: nothing selected,
+   well-formed mailboxes (decidable; evaluated on every correspondence case) *)
+Theorem C10_init_dict : forall st, init_ok st = true -> Inv st.
+Proof. exact init_ok_Inv. Qed.
+Print Assumptions C10_init_dict.
+
+Theorem C10_init_maildir : forall st P,
+  init_ok_maildir st P = true -> Forall (fun nb => b_perm (snd nb) = P) (st_boxes st) -> Inv st.
+Proof. exact init_ok_maildir_Inv. Qed.
+Print Assumptions C10_init_maildir.
+
+(* one step (the per-command simulation lemmas sim_select, sim_append, sim_store,
+   sim_expunge (also UID EXPUNGE), sim_copy, sim_move, sim_fetch (implicit \Seen),
+   sim_close, collected): same response, same abstract state, invariant kept *)
+Theorem C10_sim_step : forall st c, Inv st ->
+  snd (step st c) = snd (spec_step (abs st) c) /\
+  abs (fst (step st c)) = fst (spec_step (abs st) c) /\ Inv (fst (step st c)).
+Proof. exact sim_step. Qed.
+Print Assumptions C10_sim_step.
+
+(* sequence sets, UID sets and '*': the spec addresses a message exactly when
+   the set denotes its number in the sense of RFC 3501 (Wire/SeqSet.v [denotes]:
+   ranges in either order, '*' = the largest number in use, numbers above it
+   denote nothing, repetitions irrelevant) ... *)
+Theorem C10_set_denotes : forall mx ss n, in_set mx ss n = true <-> denotes mx ss n.
+Proof. exact in_set_denotes. Qed.
+Print Assumptions C10_set_denotes.
+
+(* ... and the model's get_uids/get_all (flatten over the session's view, then
+   enumerate) picks exactly the messages the spec addresses, in order *)
+Theorem C10_addressing : forall v uid ss, asc (uids_of v) ->
+  get_all v uid ss = filter (fun qm => addressed uid ss v (fst qm) (snd qm)) (enumerate v).
+Proof. exact get_all_spec. Qed.
+Print Assumptions C10_addressing.
+
+(* STORE replaces / adds / removes exactly the named permitted flags: the new
+   flag set of an addressed message, flag by flag (dict backend) *)
+Theorem C10_store_exact : forall b op fl m f,
+  mem f (store_flags Dict b op fl m) =
+  match op with
+  | OpReplace => mem f fl && permitted (b_perm b) f
+  | OpAdd => mem f (m_flags m) || (mem f fl && permitted (b_perm b) f)
+  | OpDelete => mem f (m_flags m) && negb (mem f fl && permitted (b_perm b) f)
+  end.
+Proof. exact store_exact. Qed.
+Print Assumptions C10_store_exact.
+
+(* MOVE = COPY followed by removal of the originals *)
+Theorem C10_move_is_copy_then_remove : forall st uid ss dest s b d,
+  sp_sel st = Some s -> ss_ro s = false ->
+  lookup (ss_box s) (sp_boxes st) = Some b -> lookup dest (sp_boxes st) = Some d -> b_ro d = false ->
+  let after_copy := sp_boxes (fst (spec_copy st uid ss dest)) in
+  sp_boxes (fst (spec_move st uid ss dest)) =
+  match lookup (ss_box s) after_copy with
+  | Some b1 => set_box (ss_box s)
+                 (set_msgs b1 (filter (fun m => negb (memN (m_uid m)
+                                 (uids_of (selected_msgs uid ss (b_msgs b))))) (b_msgs b1)))
+                 after_copy
+  | None => after_copy
+  end.
+Proof. exact move_is_copy_then_remove. Qed.
+Print Assumptions C10_move_is_copy_then_remove.
+
+(* which FETCH items set \Seen: pymap's FetchAttribute.set_seen is the RFC table *)
 Theorem C10_set_seen : forall a, attr_set_seen a = rfc_sets_seen a.
 Proof. exact set_seen_rfc. Qed.
 Print Assumptions C10_set_seen.
+
+(* in a single session STORE/FETCH never answer [EXPUNGEISSUED] *)
+Theorem C10_no_expungeissued : forall prog st, Inv st ->
+  Forall (fun o => o_code o <> CExpungeIssued) (snd (run st prog)).
+Proof. exact no_expungeissued. Qed.
+Print Assumptions C10_no_expungeissued.
+
+(* finding C10-F3 (open): maildir COPY/MOVE carry the file-name keyword letters
+   as they are; between folders with different keyword tables the copy can
+   have a flag the original did not have ... *)
+Theorem C10_refuted_keyword_tables :
+  exists src dst fl f, mem f (maildir_carry src dst fl) = true /\ mem f fl = false.
+Proof. exact keyword_tables_refuted. Qed.
+Print Assumptions C10_refuted_keyword_tables.
+
+(* ... which cannot happen when source and destination share one table (the
+   hypothesis maildir_ok of Inv): flags that have a letter are carried unchanged *)
+Theorem C10_keyword_same_table : forall t fl,
+  (forall f, mem f fl = true -> is_sys5 f = true \/ mem f t = true) ->
+  maildir_carry t t fl = fl.
+Proof. exact keyword_same_table. Qed.
+Print Assumptions C10_keyword_same_table.
